@@ -67,10 +67,13 @@ Definition corr_ok (c : case) : bool :=
       forallb (fun '(k, cls, _, plen) =>
         match Spz.decode (firstn (N.to_nat plen) plain) with Some _ => cls =? 0 | None => cls =? 1 end) obs
   | CPly _ _ f obs =>
+      (* read_mesh g = parse_header, then read_body: the header of a body cut is parsed once *)
+      let hd := parse_header (pf_header f) in
       forallb (fun '(k, cls, _, pos) =>
-        match ply_prefix f pos with
-        | Some g => class_matches (PlyRead.read_mesh g) cls
-        | None => true
+        match pos, ply_prefix f pos with
+        | HLines _, Some g => class_matches (PlyRead.read_mesh g) cls
+        | _, Some g => class_matches (dor h <- hd; read_body default_groups true h (pf_body g)) cls
+        | _, None => true
         end) obs
   | CHostile _ _ _ _ _ _ => true
   end.
